@@ -223,6 +223,11 @@ def run(ctx):
         pairs.append((pre + "[%d %s ] c" % (k, a), pre + " ".join([a] * k) + "  c", "[n body], large n", True))
         pairs.append((pre + "[%d %s : %s ] c" % (k, a, b), pre + " ".join([a + " " + b] * (k - 1) + [a]) + "  c", "[n a : b], large n", True))
         pairs.append((pre + "[2 [%d %s : %s ] e ] c" % (k, a, b), pre + " ".join([" ".join([a + " " + b] * (k - 1) + [a]) + " e"] * 2) + "  c", "nested, large n", True))
+    # the number of jump-backs of ALL loops together may be large (each count small): no loop is cut short because others ran
+    for (n1, n2, tracks) in ([(80, 64, 2)] if ctx.tier == "quick" else [(80, 64, 2), (101, 100, 1), (60, 60, 3), (127, 90, 1)]):
+        looped = "l16 " + " ".join("TR=%d [%d [%d %s]]" % (t + 1, n1, n2, "ceg"[t % 3]) for t in range(tracks))
+        unrolled = "l16 " + " ".join("TR=%d %s" % (t + 1, " ".join(["ceg"[t % 3]] * (n1 * n2))) for t in range(tracks))
+        pairs.append((looped, unrolled, "many jump-backs in total", True))
     compare(ctx, pairs, "large-count")
     # unbalanced brackets, the simplest cases (theorems C05_lone_end / C05_lone_break / C05_unclosed_begin): a `]` or a `:`
     # outside any loop is passed over, a `[n` that is never closed runs what follows once
